@@ -280,8 +280,9 @@ def mode_convert(p):
             for s in sub:
                 arr = arr.subs(s, simultaneous=True)
             chk = [mp.mpf(str(sympy.N(e.subs({a[i]: sympy.Float(repr(c["theta"][i]), 40) for i in range(k)}), 30))) for e in arr]
-            if any(abs(chk[i] - want_p[i]) > mp.mpf(10) ** -12 * max(1, abs(want_p[i])) for i in range(k)):
-                raise RuntimeError("oracle composition disagrees with sequential subs for %s: %s vs %s" % (chain_key(chain), chk, want_p))
+            # (the maps substituted here are the ones the real load_subs returned: a disagreement is a defect of this harness only if the real
+            #  convert_params nevertheless agrees with the oracle; otherwise the real reader / converter is what is wrong and it is reported below)
+            selfcheck_bad = any(abs(chk[i] - want_p[i]) > mp.mpf(10) ** -12 * max(1, abs(want_p[i])) for i in range(k))
             J = jacobian(chain, c["theta"])
             Ji = J ** -1
             F = mp.matrix(c["F"])
@@ -295,6 +296,8 @@ def mode_convert(p):
                     bad.append("Fisher diagonal %d = %r, J^-T F J^-1 gives %r" % (i, float(df[i]), float(want_f[i])))
             if len(pn) != k or len(df) != k:
                 bad.append("result lengths %d, %d for %d parameters" % (len(pn), len(df), k))
+            if selfcheck_bad and not bad:
+                raise RuntimeError("oracle composition disagrees with sequential subs for %s: %s vs %s" % (chain_key(chain), chk, want_p))
             if bad:
                 fails.append(dict(c, key=key, cls="value", error="convert_params with chain %s at theta=%s (n=%d, padding %s): %s" % (
                     chain_key(chain), c["theta"], n, c["pad"], "; ".join(bad[:4]))))
